@@ -125,3 +125,12 @@ func VerifPrevNextContext(pageURL *nurl.URL) (current, folder, prefix string, ok
 func VerifPageDiff(pageURL, linkHref string, skip int) (int, bool) {
 	return NewPrevNextFinder(nil).getPageDiff(pageURL, linkHref, skip)
 }
+
+// VerifPageInfoOf is PageNumberFinder.getPageInfoAndText for one anchor.
+func VerifPageInfoOf(link *html.Node, pageURL *nurl.URL) (int, string, string, bool) {
+	pi, text := NewPageNumberFinder(nil, nil, nil).getPageInfoAndText(link, pageURL)
+	if pi == nil {
+		return 0, "", "", false
+	}
+	return pi.PageNumber, pi.URL, text, true
+}
